@@ -3,6 +3,7 @@ import XV.Props.C05
 import XV.Lemmas.InvTable
 import XV.Lemmas.InvBlock
 import XV.Lemmas.InvList
+import XV.Lemmas.InvLive
 /-!
 C02 — token conservation: supply changes only by coinbase, every token is in one place.
 Theorems about the UTXO table of the L1 chain model. `sumU` is the sum of all rows of table "U";
@@ -928,5 +929,132 @@ example :
     let s : St := { U := [((0, 0), ⟨"a", 5, 0⟩), ((0, 1), ⟨"b", 7, 0⟩), ((3, 0), ⟨"a", 1, 9⟩)] }
     (["a", "b"] : List String).Nodup ∧ (∀ p ∈ s.U, p.2.addr ∈ ["a", "b"]) ∧
     balance s "a" = 6 ∧ balance s "b" = 7 ∧ (["a", "b"].map (balance s)).sum = sumU s.U := by decide
+
+-- ================================================================ the live invariant with sums (for eviction and roll-back)
+
+/-- the live invariant of `XV.Lemmas.InvLive` for a list `L` of applied-but-unconfirmed transactions, with one row per
+key and conservation `Σ U + fees of L = total` -/
+structure LiveSum (e : Env) (s : St) (L : List Nat) : Prop where
+  nodupU : UNodup s.U
+  live : Live e s.U L
+  conservation : sumU s.U + poolFees e L = s.total
+
+/-- **the strong pool invariant**: `PoolInv` plus what is needed to undo pending transactions — every materialised
+output of a pending transaction is a row or was spent by a pending transaction, fee slots are not rows, inputs citing
+a pending transaction cite a materialised output with its amount, cited amounts are balanced, admission order -/
+def PoolLive (e : Env) (s : St) : Prop := LiveSum e s s.pool
+
+theorem PoolLive.toPoolInv {e : Env} {s : St} (h : PoolLive e s) : PoolInv e s :=
+  ⟨h.nodupU, h.live.nodupL, h.live.nonCoinbase, h.live.insSpent, h.conservation⟩
+
+/-- hash-causality of a submitted transaction: `e.tx i` has id `i`, no row of the table carries that id, no pending
+transaction cites it, it does not cite itself; and it is not a coinbase -/
+structure Fresh (e : Env) (s : St) (i : Nat) : Prop where
+  idEq : (e.tx i).id = i
+  noRow : ∀ o, lookup s.U (i, o) = none
+  notCited : ∀ j ∈ s.pool, ∀ r ∈ (e.tx j).ins, r.tx ≠ i
+  noSelf : ∀ r ∈ (e.tx i).ins, r.tx ≠ i
+  nonCoinbase : (e.tx i).coinbase = false
+
+theorem admitted_insAmt (s : St) (lh : Int) (t : Tx) (hadm : admitTx s lh t = .ok) (hcb : t.coinbase = false) :
+    insAmt t.ins = (outSum t.outs : Int) := by
+  obtain ⟨n, hci, hbal⟩ := XV.C03.admitted_balanced s lh t hadm hcb
+  obtain ⟨hcur, _, _, _⟩ := XV.C03.admit_sound s lh t hadm
+  have hsum := checkInputs_sum s lh t.ins [] 0 n hci
+  have : t.ins.map (fun r => amtAt s.U (r.tx, r.off)) = t.ins.map (fun r => (r.amt : Int)) := by
+    apply List.map_congr_left
+    intro r hr
+    obtain ⟨u, hu, _, hamt, _⟩ := hcur r hr
+    simp only [amtAt, hu, hamt]
+  rw [this] at hsum
+  unfold insAmt
+  rw [← hbal]; omega
+
+/-- **`doTx` keeps the strong pool invariant** (for an admitted transaction under the causality hypotheses `Fresh`) -/
+theorem doTx_PoolLive (e : Env) (s : St) (lh : Int) (i : Nat) (hinv : PoolLive e s)
+    (hf : (doTx e s lh i).2 = .ok → Fresh e s i) : PoolLive e (doTx e s lh i).1 := by
+  by_cases hok : (doTx e s lh i).2 = .ok
+  · obtain ⟨hnp, hadm, hs'⟩ := XV.C03.doTx_ok e s lh i hok
+    have hfr := hf hok
+    obtain ⟨hcur, hnd, _, _⟩ := XV.C03.admit_sound s lh (e.tx i) hadm
+    have hinv' := PoolLive.toPoolInv hinv
+    have hP := doTx_PoolInv e s lh i hinv' (by rw [hfr.idEq]; exact hfr.noRow)
+      (by rw [hfr.idEq]; exact hfr.notCited) (by rw [hfr.idEq]; exact hfr.noSelf) hfr.nonCoinbase
+    have hL := applyTx_Live e s s.pool i hinv.live hnp hfr.idEq hfr.nonCoinbase hnd
+      (fun r hr => by obtain ⟨u, hu, _, hamt, _⟩ := hcur r hr; exact ⟨u, hu, hamt⟩)
+      (admitted_insAmt s lh (e.tx i) hadm hfr.nonCoinbase) hfr.noRow hfr.notCited hfr.noSelf
+    rw [hs'] at hP ⊢
+    exact ⟨hP.nodupU, hL, hP.conservation⟩
+  · rw [XV.C05.doTx_fail_noop e s lh i hok]; exact hinv
+
+/-- **undoing a live transaction that no live transaction cites keeps the invariant and conservation** -/
+theorem undo_LiveSum (e : Env) (s : St) (L : List Nat) (t : Nat) (h : LiveSum e s L) (ht : t ∈ L)
+    (hnc : ∀ j ∈ L, ∀ r ∈ (e.tx j).ins, r.tx ≠ t) :
+    LiveSum e (undoTx e s (e.tx t)) (L.filter (fun x => x != t)) := by
+  have hl := h.live
+  have hidt := hl.idEq t ht
+  have happ : Applied s (e.tx t) := by
+    refine ⟨?_, hl.insSpent t ht, hl.insNodup t ht, by rw [hidt]; exact hl.noSelf t ht⟩
+    intro idx o ho hm
+    obtain ⟨hm', ha⟩ := matSlot_of_get (e.tx t) idx o ho hm
+    rcases hl.outs t ht idx hm' with ⟨u, hu, hamt⟩ | ⟨j, hj, r, hr, hrt, _⟩
+    · rw [hidt]; exact ⟨u, hu, by rw [hamt, ha]⟩
+    · exact absurd hrt (hnc j hj r hr)
+  obtain ⟨n1, n2, n3⟩ := undoTx_sum e s (e.tx t) h.nodupU happ
+  refine ⟨n1, undo_Live e s L t hl ht hnc, ?_⟩
+  have hsplit : poolFees e L = feeOf (e.tx t).outs + poolFees e (L.filter (fun x => x != t)) :=
+    XV.InvList.sum_filter_ne _ L t hl.nodupL ht
+  have hbal : insAmt (e.tx t).ins = (outSum (e.tx t).outs : Int) := hl.balanced t ht
+  have hos := outSum_split (e.tx t).outs
+  have hcons := h.conservation
+  rw [n2, n3]
+  simp only [hl.nonCoinbase t ht, Bool.false_eq_true, ↓reduceIte]
+  omega
+
+/-- **eviction / roll-back**: undoing a duplicate-free list `ev` of live transactions in an order in which every
+transaction is undone after all live transactions that cite it (`hord`: nothing later in `ev` cites something earlier...
+read: for `a` before `b` in `ev`, `b` does not cite `a`; `hclosed`: whoever cites a member of `ev` is in `ev`) keeps the
+invariant for the remaining transactions, and conservation -/
+theorem undoFold_LiveSum (e : Env) (ev : List Nat) (s : St) (L : List Nat) (h : LiveSum e s L)
+    (hnd : ev.Nodup) (hsub : ∀ t ∈ ev, t ∈ L)
+    (hord : ev.Pairwise (fun a b => ∀ r ∈ (e.tx b).ins, r.tx ≠ a))
+    (hclosed : ∀ t ∈ ev, ∀ j ∈ L, (∃ r ∈ (e.tx j).ins, r.tx = t) → j ∈ ev) :
+    LiveSum e (ev.foldl (fun st i => undoTx e st (e.tx i)) s) (L.filter (fun x => !ev.contains x)) := by
+  induction ev generalizing s L with
+  | nil =>
+    have : L.filter (fun x => !([] : List Nat).contains x) = L := by
+      apply List.filter_eq_self.mpr; intro a _; simp
+    rw [this]; exact h
+  | cons t rest ih =>
+    simp only [List.nodup_cons] at hnd
+    simp only [List.pairwise_cons] at hord
+    have htL := hsub t List.mem_cons_self
+    have hnc : ∀ j ∈ L, ∀ r ∈ (e.tx j).ins, r.tx ≠ t := by
+      intro j hj r hr hrt
+      rcases List.mem_cons.mp (hclosed t List.mem_cons_self j hj ⟨r, hr, hrt⟩) with hjt | hjr
+      · exact h.live.noSelf j hj r hr (hrt.trans hjt.symm)
+      · exact hord.1 j hjr r hr hrt
+    have hstep := undo_LiveSum e s L t h htL hnc
+    have hmem : ∀ x, x ∈ L.filter (fun x => x != t) ↔ x ∈ L ∧ x ≠ t := by
+      intro x; simp only [List.mem_filter, bne_iff_ne, ne_eq]
+    have := ih (undoTx e s (e.tx t)) (L.filter (fun x => x != t)) hstep hnd.2
+      (fun t' ht' => (hmem t').mpr ⟨hsub t' (List.mem_cons_of_mem _ ht'), fun e2 => hnd.1 (e2 ▸ ht')⟩)
+      hord.2
+      (fun t' ht' j hj hc => by
+        obtain ⟨hjL, hjt⟩ := (hmem j).mp hj
+        rcases List.mem_cons.mp (hclosed t' (List.mem_cons_of_mem _ ht') j hjL hc) with h1 | h1
+        · exact absurd h1 hjt
+        · exact h1)
+    simp only [List.foldl_cons]
+    have hfil : (L.filter (fun x => x != t)).filter (fun x => !rest.contains x) =
+        L.filter (fun x => !(t :: rest).contains x) := by
+      rw [List.filter_filter]
+      apply List.filter_congr
+      intro x _
+      by_cases hx : x = t
+      · simp [hx]
+      · simp [hx]
+    rw [hfil] at this
+    exact this
 
 end XV.C02
